@@ -62,4 +62,10 @@ def run {I F R : Type} (pol : Policy) (analyse : Store → I → F → R) : Stor
   | _, [] => []
   | s, c :: cs => let r := call pol analyse s c; r.2 :: run pol analyse r.1 cs
 
+/-- how the option handling at the start of `_analysis` ends (used by the regenerated prologue, Generated/PyConfig.lean) -/
+inductive Prologue where
+  | empty          -- no "dynamics" key: the empty result is returned at once
+  | proceed        -- options read, analysis proper follows
+deriving Repr, DecidableEq
+
 end OdeVerif.Config
